@@ -390,5 +390,6 @@ def jobs(tier):
         out += [("transform4", lambda j: job_transform(j, 4)), ("transform5", lambda j: job_transform(j, 5)),
                 ("builder75", lambda j: job_builder(j, 75)), ("transform8", lambda j: job_transform(j, 8)),
                 ("transform5-descending", lambda j: job_transform(j, 5, True)), ("builder100", lambda j: job_builder(j, 100)),
-                ("transform16", lambda j: job_transform(j, 16)), ("transform12-descending", lambda j: job_transform(j, 12, True))]
+                ("transform16", lambda j: job_transform(j, 16)), ("transform12-descending", lambda j: job_transform(j, 12, True)),
+                ("transform24", lambda j: job_transform(j, 24)), ("transform8-series-columns", lambda j: job_transform(j, 8, False, True)), ("builder60-int-maximum-pressure", lambda j: job_builder(j, 60, True))]
     return out
